@@ -309,7 +309,7 @@ class Interp:
             return m(self, *args, **kwargs)
         if callable(f) and all(deep_concrete(a) for a in args) and all(deep_concrete(v) for v in kwargs.values()):
             qn = name or getattr(f, '__qualname__', repr(f))
-            if name in self.pure or models.is_pure_callable(f):
+            if name in self.pure or qn in self.pure or models.is_pure_callable(f):
                 self.native_calls[qn] = self.native_calls.get(qn, 0) + 1
                 try:
                     return f(*args, **kwargs)
@@ -483,6 +483,16 @@ class Interp:
             d = dotted(item.context_expr)
             if d is not None and LOCK_NAME.search(d) and d not in self.externs:
                 self.lock_scopes.append((d, s.lineno))
+                lock = None
+                try:
+                    lock = self.eval(item.context_expr, env)
+                except (PyRaise, AttributeError, OutsideSubset):
+                    lock = None
+                if isinstance(lock, Obj) and lock.has_field('__enter__') and item.optional_vars is None:
+                    # a lock the contract models (rely/guarantee harness): its acquire / release are observed
+                    self.call_value(lock.field('__enter__'), [], {})
+                    entered.append(lock)
+                    continue
                 entered.append(None)
                 if item.optional_vars is not None:
                     raise OutsideSubset("with lock as x")
